@@ -52,6 +52,26 @@ func pipelineSetup(s *rt.Sim, tier string) func() {
 		maxPending := oneOf("cfg", 0, 1, 2, 4)
 		valWorkers := oneOf("cfg", 0, 0, 1, 4, 16)
 		slowVal := pick("cfg", 3)
+		// focus arm (own stream of draws): back-pressure with several submitters whose contexts
+		// expire while they queue behind one another, and drains while blocks dwell in workers --
+		// the corner in which admission, cancellation and drain accounting meet
+		focus := rt.Choose("cfg.x", 3) == 2
+		if focus {
+			nsub = 2 + rt.Choose("cfg.x", 2)
+			perSub = 3 + rt.Choose("cfg.x", 6)
+			buf = 1 + rt.Choose("cfg.x", 2)
+			expiring = true
+			ndrain = 2
+			stopEarly = false
+			if rt.Choose("cfg.x", 2) == 1 {
+				slowApply = 2
+			} else if valWorkers > 0 {
+				slowVal = 2
+			} else {
+				slowApply = 1
+			}
+			rt.Hit("pl.focus-backpressure-expiry-drain")
+		}
 		failSlot := map[uint64]bool{} // eras whose epoch nonce cannot be provided
 		if valWorkers > 0 {
 			for _, fb := range blocks {
@@ -199,13 +219,19 @@ func pipelineSetup(s *rt.Sim, tier string) func() {
 		for d := 0; d < ndrain; d++ {
 			go func() {
 				defer func() { drainFin <- struct{}{} }()
-				sleep(oneOf("op", time.Millisecond, 40*time.Millisecond, 400*time.Millisecond, 3*time.Second))
-				ctx, cancel := context.WithTimeout(context.Background(), 30*time.Second)
-				defer cancel()
-				r := &drainRec{inv: rt.Stamp()}
-				r.err = p.WaitForDrain(ctx)
-				r.ret = rt.Stamp()
-				drains = append(drains, r)
+				ncalls := 1
+				if focus {
+					ncalls = 3
+				}
+				for k := 0; k < ncalls; k++ {
+					sleep(oneOf("op", time.Millisecond, 40*time.Millisecond, 400*time.Millisecond, 3*time.Second))
+					ctx, cancel := context.WithTimeout(context.Background(), 30*time.Second)
+					r := &drainRec{inv: rt.Stamp()}
+					r.err = p.WaitForDrain(ctx)
+					r.ret = rt.Stamp()
+					cancel()
+					drains = append(drains, r)
+				}
 			}()
 		}
 		stopRet := false
